@@ -84,7 +84,7 @@ def subParser (which : String) (src : Bytes) : String :=
 /-! ### `script` requests: build-script runs on the abstract file system -/
 
 /-- entries: `f<name>:<content>` | `l<name>:<content>` (symbolic link, bytes of what it resolves to) |
-`d<name>(<entries>)`, comma separated; returns (entries, rest) -/
+`x<name>` (not a directory, cannot be read) | `d<name>(<entries>)`, comma separated; returns (entries, rest) -/
 partial def parseEntries (s : List Char) : List IEntry × List Char :=
   let rec takeHex (s : List Char) (acc : List Char) : List Char × List Char :=
     match s with
@@ -112,6 +112,13 @@ partial def parseEntries (s : List Char) : List IEntry × List Char :=
         | ',' :: r => go r (e :: acc)
         | _ => ((e :: acc).reverse, r)
       | _ => (acc.reverse, r)
+    | 'x' :: r =>
+      -- an entry that is not a directory and cannot be read (symbolic link to nothing / to a directory)
+      let (n, r) := takeHex r []
+      let e := IEntry.dead (unhex (String.ofList n))
+      match r with
+      | ',' :: r => go r (e :: acc)
+      | _ => ((e :: acc).reverse, r)
     | 'd' :: r =>
       let (n, r) := takeHex r []
       match r with
@@ -169,11 +176,11 @@ def runScript (utils : Bytes) (featS outH escS alnS fsS opsS baseH : String) : S
   -- the input tree as the operating system showed it: one node per path looked at
   let seen : List (Bytes × Option Node) := calls.filterMap (·.2)
   let tree : InFS := fun p => (seen.find? (fun x => x.1 == p)).bind (·.2)
-  let ops := script.map (SOp.resolve base tree)
+  let ops := script.map (SOp.resolveA base tree)
   let ue := fun c => escs.contains c
   let ua := fun c => alns.contains c
-  let o := Ructe.runScript ue ua feat fs outdir utils base tree script
-  let names := namesAfter ue ua feat outdir utils ops
+  let o := Ructe.runScriptA ue ua feat fs outdir utils base tree script
+  let names := namesAfterA ue ua feat outdir utils ops
   "stdout=" ++ hex (nl.intercalate o.stdout) ++
   "|files=" ++ ",".intercalate ((sortPairs o.fs).map fun (p, c) => hex p ++ ":" ++ hex c) ++
   "|writes=" ++ ",".intercalate ((dedup (sortBytes o.writes)).map hex) ++
